@@ -1,1 +1,2 @@
 pub mod dir;
+pub mod repl;
